@@ -1574,6 +1574,7 @@ func init() {
 			for i := 0; i < 3; i++ {
 				out.Line("%s", apiResultsScenario(NewRNG(seed, fmt.Sprintf("c02api-%d", i))))
 				out.Line("%s", apiGetResultsScenario(NewRNG(seed, fmt.Sprintf("c02apiget-%d", i))))
+				out.Line("%s", adminResultsScenario(NewRNG(seed, fmt.Sprintf("c02admin-%d", i))))
 			}
 			for _, exc := range []string{"action", "region"} {
 				out.Line("%s", serverExcMultiScenarioFor("c02", exc, false))
